@@ -91,6 +91,11 @@ fn fonts_menu() -> Vec<ds::Horizontal> {
         chf('b', 2),
         ligf('a', "aa", 0),
         ligf('a', "aa", 1),
+        chf('é', 0),
+        chf('é', 1),
+        ligf('€', "é€", 0),
+        chf('😀', 1),
+        chf('😀', 0),
         glue(PT, 2 * PT, Normal, PT, Normal),
         kern(PT, ds::KernKind::Normal),
         hbox(PT, 2 * PT, PT, 0),
@@ -114,6 +119,25 @@ fn rules_menu() -> Vec<ds::Horizontal> {
     }
     m.extend([ch('a'), ch('b'), hbox(9 * PT, 2 * PT, 3 * PT, -4 * PT), glue(PT, 2 * PT, Normal, PT, Normal), kern(PT, ds::KernKind::Normal)]);
     m
+}
+/// Items that change nothing (zero kern, all-zero glue, zero-width glue that can stretch, penalty 0,
+/// the null box, an empty discretionary, a rule of zero size) next to a few that do.
+fn noops_menu() -> Vec<ds::Horizontal> {
+    use GlueOrder::*;
+    vec![
+        kern(0, ds::KernKind::Normal),
+        kern(0, ds::KernKind::Explicit),
+        glue(0, 0, Normal, 0, Normal),
+        glue(0, 0, Filll, 0, Fil),
+        glue(0, 2 * PT, Normal, PT, Normal),
+        pen(0),
+        ds::Horizontal::HBox(ds::HBox::new_null_box()),
+        disc("", "", 0),
+        rule(Scaled(0), 0, Scaled(0)),
+        ch('a'),
+        glue(PT, 2 * PT, Fil, PT, Normal),
+        hbox(PT, PT, PT, PT),
+    ]
 }
 fn mixed_menu() -> Vec<ds::Horizontal> {
     use GlueOrder::*;
@@ -466,6 +490,23 @@ fn check_list(list_idx: u64, list: &[ds::Horizontal], acc: &mut Acc) {
     if missing_after_present {
         acc.count_n("missing_character_right_after_the_same_character_in_a_font_that_has_it", ntargets_hint);
     }
+    let zero_item = |n: &kp::Node| match n {
+        kp::Node::Kern { w, .. } => *w == 0,
+        kp::Node::Glue(g) => g.w == 0 && g.stretch == 0 && g.shrink == 0,
+        kp::Node::Box { w, h, d, shift } => *w == 0 && *h == 0 && *d == 0 && *shift == 0,
+        kp::Node::Rule { w, h, d } => *w == 0 && *h == 0 && *d == 0,
+        kp::Node::Penalty(_) | kp::Node::Disc { .. } => true,
+        _ => false,
+    };
+    if !mlist.is_empty() && mlist.iter().all(zero_item) {
+        acc.count("list_of_items_that_change_nothing");
+    }
+    if mlist.iter().any(zero_item) && !mlist.iter().all(zero_item) {
+        acc.count("zero_valued_item_among_others");
+    }
+    if list.iter().any(|n| matches!(n, ds::Horizontal::Char(ds::Char { char, .. }) | ds::Horizontal::Ligature(ds::Ligature { char, .. }) if char.len_utf8() >= 2)) {
+        acc.count("non_ascii_glyph_in_list");
+    }
     let p0 = kp::hpack(&mlist, kp::Pack::Additional(0));
     // a rule with exactly one running dimension whose explicit other dimension is the box's maximum
     if mlist.iter().any(|n| matches!(n, kp::Node::Rule { h, d, .. } if (*h == kp::NULL_FLAG) != (*d == kp::NULL_FLAG) && ((*h == p0.height && *h > 0) || (*d == p0.depth && *d > 0)))) {
@@ -621,9 +662,11 @@ fn main() {
     seq_family(&mut ctx, 2, "glue-diag-4", "glue that only stretches, only shrinks, or does both with one amount and order; amounts {0,+2pt,-2pt} x 4 orders (36 glues)", &|| glue_diag(&[0, 2, -2], true), 4, 4);
     seq_family(&mut ctx, 3, "glue-diag-deep", "glue that only stretches or only shrinks; amounts {0,+2pt,-2pt,+3pt} x 4 orders (32 glues)", &|| glue_diag(&[0, 2, -2, 3], false), if quick { 4 } else { 5 }, if quick { 4 } else { 5 });
     // F3b: the same character in several fonts
-    seq_family(&mut ctx, 5, "fonts", "characters and ligatures over {a,b} x {font 0, font 1 (other metrics), font 2 (a missing)} interleaved with a glue, a kern, a box and a penalty", &fonts_menu, 1, if quick { 5 } else { 6 });
+    seq_family(&mut ctx, 5, "fonts", "characters and ligatures over {a,b} x {font 0, font 1 (other metrics), font 2 (a missing)}, non-ASCII glyphs (e-acute in two fonts, a euro ligature, an emoji present in font 1 and missing in font 0), interleaved with a glue, a kern, a box and a penalty", &fonts_menu, 1, if quick { 4 } else { 5 });
     // F3c: rules with running dimensions
     seq_family(&mut ctx, 6, "rules", "rules with height and depth each running, small (1pt / 0.5pt) or large (15pt / 14pt, above every other item), two characters, a shifted box, a glue, a kern", &rules_menu, 1, if quick { 5 } else { 6 });
+    // F3d: items that change nothing
+    seq_family(&mut ctx, 7, "noops", "zero kerns, all-zero glue (also with infinite orders), zero-width stretchable glue, penalty 0, the null box, an empty discretionary, a zero rule, next to a character, a fil glue and a shifted box", &noops_menu, 0, if quick { 5 } else { 6 });
     // F4: dimensions at max_dimen
     seq_family(&mut ctx, 4, "max-dimen", "kerns, glue, boxes and rules with dimensions +-(2^30-1) (cases whose natural width or target leaves max_dimen are skipped)", &boundary_menu, 1, 3);
 
@@ -635,6 +678,9 @@ fn main() {
     ctx.require("character_missing_from_its_font", "lists with a character node whose font lacks the character (FontRepo returns None)");
     ctx.require("missing_character_right_after_the_same_character_in_a_font_that_has_it", "the missing character directly follows (among characters) the same character in a font that has it");
     ctx.require("half_running_rule_decides_height_or_depth", "a rule with exactly one of height/depth running determines the box's height or depth through its explicit other dimension");
+    ctx.require("list_of_items_that_change_nothing", "a non-empty list made only of zero kerns, all-zero glue, penalties, null boxes, empty discretionaries, zero rules");
+    ctx.require("zero_valued_item_among_others", "a zero-valued item next to items that count");
+    ctx.require("non_ascii_glyph_in_list", "a character or ligature whose character needs 2, 3 or 4 bytes in UTF-8");
     ctx.require("overfull", "TeX would call the box overfull");
     ctx.require("shrink_exactly_used_up", "the target equals natural width minus the finite shrinkability (ratio exactly 1, not overfull)");
     ctx.require("shifted_box_decides_height_or_depth", "a shifted box determines the height or depth of the result");
